@@ -27,12 +27,6 @@ pub mod broadcast { pub mod error { pub enum RecvError { Closed, Lagged(u64) } }
 pub use broadcast::error::RecvError;
 
 
-// Scru128Id order/equality = order/equality of the 128-bit value (K1)
-impl vstd::std_specs::cmp::PartialEqSpecImpl for Scru128Id {
-    open spec fn obeys_eq_spec() -> bool { true }
-    open spec fn eq_spec(&self, other: &Scru128Id) -> bool { id_u128(*self) == id_u128(*other) }
-}
-pub assume_specification [<Scru128Id as PartialEq>::eq] (a: &Scru128Id, b: &Scru128Id) -> (r: bool) ensures r == (id_u128(*a) == id_u128(*b));
 pub assume_specification [<Scru128Id as PartialOrd>::le] (a: &Scru128Id, b: &Scru128Id) -> (r: bool) ensures r == (id_u128(*a) <= id_u128(*b));
 pub assume_specification [<Scru128Id as PartialOrd>::lt] (a: &Scru128Id, b: &Scru128Id) -> (r: bool) ensures r == (id_u128(*a) < id_u128(*b));
 pub assume_specification [<Scru128Id as PartialOrd>::ge] (a: &Scru128Id, b: &Scru128Id) -> (r: bool) ensures r == (id_u128(*a) >= id_u128(*b));
